@@ -213,3 +213,124 @@ def well_formed(consensus, universe_vals, one):
         if seen != set((type(v), v) for v in universe_vals):
             return "elements %s != universe %s" % (sorted(map(str, seen)), sorted(map(str, universe_vals)))
     return None
+
+
+# ---------------------------------------------------------------------------------------------------------------------
+# algorithm objects with a past (round 7): with `warm()` active, every top-level call of compute_consensus_rankings on an
+# algorithm object is preceded by calls of THE SAME OBJECT on related inputs — the same dataset and scheme with the
+# other value of return_at_most_one_ranking; the same dataset under the scheme scaled by 2**-13 and by 3; the same
+# dataset under a scheme with the same B vector and another T vector; a dataset over the same universe whose elements
+# first appear in another order.  What the object answers afterwards must not depend on that past.
+_WARM = {"on": False, "depth": 0, "patched": False, "calls": 0}
+
+
+def _warmups(dataset, scheme, one, light):
+    """order matters: a memo that is filled once and never overwritten is poisoned by the FIRST related call, a memo of
+    the last call by the LAST one (same dataset and scheme, other flag value)"""
+    from corankco.scoringscheme import ScoringScheme
+    from corankco.dataset import Dataset
+    from corankco.ranking import Ranking
+    out = []
+    try:
+        out.append((dataset, scheme * (2. ** -13), one))
+    except Exception:
+        pass
+    if not light:
+        try:
+            out.append((dataset, scheme * 3., one))
+            b, t = [list(v) for v in scheme.penalty_vectors]
+            out.append((dataset, ScoringScheme([b, [t[0] + 1., t[1] + 1., 0., t[3], t[4], t[5]]]), one))
+        except Exception:
+            pass
+        try:
+            rev = [Ranking([set(bk) for bk in list(r)[::-1]]) for r in list(dataset.rankings)[::-1]]
+            out.append((Dataset(rev), scheme, one))
+        except Exception:
+            pass
+    # the dataset numbered differently comes first in every other top-level call (a memo of the first dataset's ids)
+    _WARM["toggle"] = not _WARM.get("toggle", False)
+    if _WARM["toggle"] and len(out) >= 2 and out[-1][0] is not dataset:
+        out.insert(0, out.pop())
+    out.append((dataset, scheme, not one))
+    return out
+
+
+def _patch_for_warm():
+    if _WARM["patched"]:
+        return
+    _WARM["patched"] = True
+    import importlib
+    import corankco.algorithms.kwiksort.kwiksortrandom as kmod
+    from corankco.algorithms.rank_aggregation_algorithm import RankAggAlgorithm
+    for m_ in ("bioconsert.bioconsert", "bioconsert.bioco", "borda.borda", "copeland.copeland", "exact.exactalgorithm",
+               "exact.exactalgorithmpulp", "exact.exactalgorithmcplex", "exact.exactalgorithmbase",
+               "kwiksort.kwiksortabs", "kwiksort.kwiksortrandom", "parcons.parcons", "pickaperm.pickaperm",
+               "pairwisebasedalgorithm"):
+        try:
+            importlib.import_module("corankco.algorithms." + m_)
+        except Exception:
+            pass
+
+    def subclasses(c):
+        for s in c.__subclasses__():
+            yield s
+            yield from subclasses(s)
+
+    def wrap(cls):
+        orig = cls.__dict__["compute_consensus_rankings"]
+
+        def wrapped(self, dataset, scoring_scheme, return_at_most_one_ranking=True, bench_mode=False):
+            if _WARM["on"] and _WARM["depth"] == 0:
+                _WARM["depth"] += 1
+                name = type(self).__name__
+                light = ("Exact" in name) or ("ParCons" in name)
+                old_choice = kmod.choice
+                kmod.choice = lambda seq: list(seq)[0]      # warm-up runs do not consume a scripted pivot sequence
+                try:
+                    for d2, s2, o2 in _warmups(dataset, scoring_scheme, return_at_most_one_ranking, light):
+                        try:
+                            with A.quiet():
+                                orig(self, d2, s2, o2)
+                            _WARM["calls"] += 1
+                        except Exception:
+                            pass
+                finally:
+                    kmod.choice = old_choice
+                    _WARM["depth"] -= 1
+            _WARM["depth"] += 1
+            try:
+                return orig(self, dataset, scoring_scheme, return_at_most_one_ranking, bench_mode)
+            finally:
+                _WARM["depth"] -= 1
+        wrapped.__wrapped__ = orig
+        cls.compute_consensus_rankings = wrapped
+
+    for c in set(subclasses(RankAggAlgorithm)):
+        if "compute_consensus_rankings" in c.__dict__:
+            wrap(c)
+
+
+@contextlib.contextmanager
+def warm():
+    _patch_for_warm()
+    old = _WARM["on"]
+    _WARM["on"] = True
+    try:
+        yield
+    finally:
+        _WARM["on"] = old
+
+
+def is_warm():
+    return _WARM["on"]
+
+
+@contextlib.contextmanager
+def cold():
+    """inside a warm() block: calls made here are plain calls (no warm-up in front of them)"""
+    old = _WARM["on"]
+    _WARM["on"] = False
+    try:
+        yield
+    finally:
+        _WARM["on"] = old
